@@ -216,6 +216,19 @@ def evolve(rng, schR, tname, kinds=('add', 'add', 'add', 'remove', 'retype', 're
     return W, edits
 
 
+def elem_compatible(W, R, tyW, tyR):
+    """containers: do the element wire types the writer announces equal the ones the reader declares (hereditarily through
+    nested containers)?  A mismatch keeps the FIELD's wire type (list / set / map) but re-types the elements: class
+    container-element-retyped (finding F-08b)"""
+    tw, tr = W.resolve(tyW), R.resolve(tyR)
+    if tw[0] in ('list', 'set') and tr[0] == tw[0]:
+        return genref.wire_kind(W, tw[1]) == genref.wire_kind(R, tr[1]) and elem_compatible(W, R, tw[1], tr[1])
+    if tw[0] == 'map' and tr[0] == 'map':
+        return (genref.wire_kind(W, tw[1]) == genref.wire_kind(R, tr[1]) and genref.wire_kind(W, tw[2]) == genref.wire_kind(R, tr[2])
+                and elem_compatible(W, R, tw[1], tr[1]) and elem_compatible(W, R, tw[2], tr[2]))
+    return True
+
+
 def view(W, R, tyW, tyR, v, hits=None):
     """value the reader (schema R) must produce for the W-encoding of v; raises ViewError when it must fail.
     hits: a set collecting the known-finding classes the case falls in (e.g. 'union-variant-retyped')"""
@@ -235,6 +248,12 @@ def view(W, R, tyW, tyR, v, hits=None):
         for f in dr['fields']:
             g = wf.get(f['id'])
             if g is not None and f['id'] in v and genref.wire_kind(W, g['ty']) == genref.wire_kind(R, f['ty']):
+                if not elem_compatible(W, R, g['ty'], f['ty']):
+                    # same field wire type, re-typed elements: a tolerant reader must not read them at the declared type;
+                    # the oracle treats the field like one whose wire type differs (ignored)
+                    if hits is not None:
+                        hits.add('container-element-retyped')
+                    continue
                 out[f['id']] = view(W, R, g['ty'], f['ty'], v[f['id']], hits)
         missing = None
         for f in dr['fields']:
